@@ -1,5 +1,6 @@
 import Litep2pVerif.Proofs.Service.KeepAlive
 import Litep2pVerif.Generated.Consts
+import Litep2pVerif.Proofs.Conn.Permits
 /-!
 # C09 — Idle connections close after the keep-alive timeout, busy ones are kept
 
@@ -165,6 +166,74 @@ example :
     exits s3 10 = true ∧ exits s3 11 = false ∧ exits s4.pollAll 11 = true := by
   decide
 
+/-- **An inbound substream holds the connection from the moment it is accepted** (model
+`Model/Conn/Permits.lean`, tied to the real `TcpConnection::start` loop in the `tcploop` area; this is the
+connection task's side of `held_not_closed`, which the C09 adapter used to mimic).
+
+1. `handle_yamux_substream`: if any strong sender of the command channel is left when an inbound yamux
+   stream arrives, the loop goes on and the substream enters `pending_substreams` OWNING a permit — before
+   multistream-select has said which protocol it is for.
+2. That entry stays, with its permit, across every other transition of the system — other substreams
+   being accepted, negotiated, failing; commands; every protocol downgrading or dropping its handle;
+   deliveries; protocols shutting down — until its own negotiation ends (or the loop has returned for
+   another reason): and as long as it is there the command channel has a strong sender, so
+   `protocol_set.next()` cannot yield `None`: the idle exit is disabled.
+3. When its negotiation succeeds for a live protocol `p` the permits travel with the `SubstreamOpened`
+   message (`stage = queued`).
+4. A substream being negotiated (inbound or outbound), and a delivered substream of a keep-alive
+   protocol whether still in the protocol's channel or held by the protocol, keeps the idle exit
+   disabled. -/
+theorem inbound_negotiation_holds_connection :
+    (∀ s : Conn.TLoop, s.running = true → 0 < s.strong →
+      (Conn.tstep s .accept).subs = s.subs ++ [⟨true, none, .negotiating⟩] ∧
+      (Conn.tstep s .accept).loop.exited = none) ∧
+    (∀ (s : Conn.TLoop) (ls : List Conn.TLabel) (k : Nat) (x : Conn.Sub),
+      s.subs[k]? = some x → x.stage = .negotiating →
+      (∀ l ∈ ls, (∀ p, l ≠ .negOk k p) ∧ l ≠ .negFail k) →
+      (Conn.trun s ls).loop.exited = none →
+        (Conn.trun s ls).subs[k]? = some x ∧ 0 < (Conn.trun s ls).strong ∧
+        (Conn.trun s ls).idleEnabled = false ∧
+        Conn.tstep (Conn.trun s ls) .idleExit = Conn.trun s ls) ∧
+    (∀ (s : Conn.TLoop) (k p : Nat) (x : Conn.Sub), s.running = true →
+      s.subs[k]? = some x → x.stage = .negotiating → Conn.protoAlive s p = true →
+      (Conn.tstep s (.negOk k p)).loop.exited = none →
+        (Conn.tstep s (.negOk k p)).subs[k]? = some { x with proto := some p, stage := .queued }) ∧
+    (∀ (s : Conn.TLoop) (x : Conn.Sub), x ∈ s.subs → Conn.Busy s.ka x →
+      0 < s.strong ∧ s.idleEnabled = false ∧ Conn.tstep s .idleExit = s) := by
+  refine ⟨fun s hr hs => ?_, fun s ls k x hk hx hls hrun => ?_, fun s k p x hr hk hx ha hrun => ?_,
+    fun s x hmem hb => ?_⟩
+  · have := Conn.accept_with_permit s hr hs
+    exact ⟨this.1, this.2.1⟩
+  · have h1 := Conn.trun_negotiating ls s k x hk hx hls hrun
+    have h2 := Conn.busy_strong_pos _ x (List.mem_of_getElem? h1) (Or.inl hx)
+    exact ⟨h1, h2, Conn.idle_disabled _ h2⟩
+  · exact Conn.negOk_queues s k p x hr hk hx ha hrun
+  · have h2 := Conn.busy_strong_pos s x hmem hb
+    exact ⟨h2, Conn.idle_disabled s h2⟩
+
+/-- Non-vacuity (the C09-b2 shape): one keep-alive protocol takes the connection; the remote opens a
+substream (accepted: `subs[0]` negotiating) and stalls; the protocol's keep-alive timer fires (`downgrade`).
+The hypotheses of part 2 hold for the label sequence, the only strong sender left is the substream's
+permit, the idle exit does nothing — as often as it is tried. When the negotiation fails the permit is
+gone and the idle exit closes the connection, reports made once. When it succeeds instead, the
+substream's lifetime permit keeps the connection until the protocol drops the substream. -/
+example :
+    let s1 := Conn.trun (Conn.tinit [true] 4) [.recv 0, .accept]
+    let s2 := Conn.trun s1 [.downgrade 0, .idleExit, .idleExit]
+    let s3 := Conn.trun s2 [.negFail 0, .idleExit]
+    let s4 := Conn.trun s2 [.negOk 0 0, .idleExit, .recv 0, .idleExit]
+    let s5 := Conn.trun s4 [.dropSub 0, .idleExit]
+    s1.subs[0]? = some ⟨true, none, .negotiating⟩ ∧
+    s2.strong = 1 ∧ s2.loop.exited = none ∧ s2.subs[0]? = some ⟨true, none, .negotiating⟩ ∧
+    s3.loop.exited = some .ok ∧ s3.loop.ps.log = [.proto 0 .closed, .mgr] ∧
+    s4.loop.exited = none ∧ s4.subs = [⟨true, some 0, .held⟩] ∧ s4.strong = 1 ∧
+    s5.loop.exited = some .ok := by decide
+
+/-- Non-vacuity: for a ping-like protocol the permits end with the delivery (no lifetime permit). -/
+example :
+    let s := Conn.trun (Conn.tinit [false] 4) [.recv 0, .accept, .downgrade 0, .negOk 0 0, .idleExit, .recv 0]
+    s.loop.exited = none ∧ s.strong = 0 ∧ (Conn.tstep s .idleExit).loop.exited = some .ok := by decide
+
 /-- The default timeout (regenerated from `src/transport/mod.rs`) is positive, so a fresh
 connection always gets a grace period. -/
 example : 0 < Consts.KEEP_ALIVE_TIMEOUT_SECS := by decide
@@ -175,3 +244,4 @@ end Litep2pVerif.Props.C09
 #print axioms Litep2pVerif.Props.C09.idle_closed_at_partial
 #print axioms Litep2pVerif.Props.C09.ping_no_prolong
 #print axioms Litep2pVerif.Props.C09.primary_secondary
+#print axioms Litep2pVerif.Props.C09.inbound_negotiation_holds_connection
